@@ -273,7 +273,11 @@ func c18Build(seed uint64, i int, corpus []CorpusDir, faulty bool) *c18Case {
 		if r.chance(1, 3) && len(workloads) > 0 {
 			w := pick(r, workloads)
 			bare := w[strings.Index(w, "/")+1:]
-			switch r.intn(8) {
+			switch r.intn(10) {
+			case 8:
+				c.focus = "default/" + bare // the right name under the default namespace (usually the wrong one)
+			case 9:
+				c.focus = pick(r, nsNames) + "/" + bare // the right name under some namespace
 			case 0:
 				c.focus = w
 			case 1:
